@@ -44,11 +44,9 @@ func GetApparmorLogs(file io.Reader, profile string) []string {
 	scanner := bufio.NewScanner(file)
 	scanner.Buffer(make([]byte, 0, bufio.MaxScanTokenSize), 64*1024*1024)
 	for scanner.Scan() {
-		line := scanner.Text()
+		line := util.DecodeHexInString(scanner.Text())
 		if isAppArmorLog.MatchString(line) {
-			logs = append(logs,
-				regCleanLogs.Replace(util.DecodeHexInString(line)),
-			)
+			logs = append(logs, regCleanLogs.Replace(line))
 		}
 	}
 	return util.RemoveDuplicate(logs)
